@@ -7,9 +7,7 @@
  * Environment of spif_tok_eval in this unit (callees replaced by the contracts below; see split.h):
  *   str class : spif_str_get_len, spif_str_new_from_buff, spif_str_clear, spif_str_append_char,
  *               spif_str_trim  -- abstract state (len, size, s != NULL); C01 owns their bodies.
- *               spif_str_trim is taken as C01 specifies it (total on valid strs); its len == 0 defect
- *               (C01-trim-len0, natively through tok: findings/demos/C12_tok_empty_quote_trim.c) is
- *               seen by the B units tok.defects / tok.empty, where the real str.c runs.
+ *               spif_str_trim is taken as C01 specifies it (total on valid strs; C01 proves it on str.c).
  *   list class: SPIF_LIST_NEW / SPIF_LIST_DEL / SPIF_LIST_APPEND are RE-BOUND (they dispatch through
  *               spif_func_t pointers, GUIDE "function pointers") to the abstract list vlist_new /
  *               vlist_del / vlist_append whose only state is the ghost counter vg_sp_cnt.
@@ -106,9 +104,7 @@ __CPROVER_assigns(self->len, self->size, self->s)
 __CPROVER_ensures(STRV(self) && self->len == __CPROVER_old(self->len) + 1)
 ;
 /* total on every valid str, as C01 specifies trim (result: a valid str that is not longer, or the
- * (NULL,0,0) state).  On a tree without findings/proposed/C01_trim.diff the len == 0 case of the real
- * function reads s[-1] (finding C01-trim-len0); through tok that is seen where the real str.c runs,
- * in the B units tok.defects / tok.empty. */
+ * (NULL,0,0) state); where the real str.c runs with tok is the B unit tok.grammar */
 spif_bool_t spif_str_trim(spif_str_t self)
 __CPROVER_requires(self != NULL && STRV(self))
 __CPROVER_assigns(self->len, self->size, self->s)
